@@ -298,6 +298,7 @@ class ModuleCanon(object):
                 break
         self.inline_temps()
         self.ifexp_to_if()
+        self.lock_blocks()
         ast.fix_missing_locations(self.tree)
 
     # ------------------------------------------------------------ K: constants
@@ -849,6 +850,38 @@ class ModuleCanon(object):
                 return False
         return False
 
+    # ------------------------------------------------------------ L: lock blocks
+    def lock_blocks(self):
+        """`X.acquire()` directly followed by `try: BODY finally: X.release()` is `with X: BODY` (X a lock attribute)."""
+        for q, fn, cls, clsnode in self.functions():
+            self._lock_body(fn.body, q)
+
+    def _lock_body(self, body, q):
+        i = 0
+        while i < len(body):
+            st = body[i]
+            if not isinstance(st, (ast.FunctionDef, ast.ClassDef, ast.AsyncFunctionDef)):
+                for fld in ("body", "orelse", "finalbody"):
+                    sub = getattr(st, fld, None)
+                    if isinstance(sub, list):
+                        self._lock_body(sub, q)
+                for h in getattr(st, "handlers", []) or []:
+                    self._lock_body(h.body, q)
+            if i + 1 < len(body) and isinstance(st, ast.Expr) and isinstance(st.value, ast.Call) and isinstance(st.value.func, ast.Attribute) \
+                    and st.value.func.attr == "acquire" and not st.value.args and not st.value.keywords \
+                    and isinstance(st.value.func.value, ast.Attribute) and "lock" in st.value.func.value.attr.lower():
+                nx = body[i + 1]
+                lock = st.value.func.value
+                if isinstance(nx, ast.Try) and not nx.handlers and not nx.orelse and len(nx.finalbody) == 1 \
+                        and isinstance(nx.finalbody[0], ast.Expr) and isinstance(nx.finalbody[0].value, ast.Call) \
+                        and ast.dump(nx.finalbody[0].value.func) == ast.dump(ast.Attribute(value=lock, attr="release", ctx=ast.Load())) \
+                        and not nx.finalbody[0].value.args:
+                    w = ast.copy_location(ast.With(items=[ast.withitem(context_expr=lock, optional_vars=None)], body=nx.body), st)
+                    body[i:i + 2] = [w]
+                    self.log.append(("L", q, ast.unparse(lock)))
+                    continue
+            i += 1
+
     # ------------------------------------------------------------ I: IfExp statements
     def ifexp_to_if(self):
         for q, fn, cls, clsnode in self.functions():
@@ -938,7 +971,9 @@ def substitute_equivalent(modules, log):
                 btree = ast.parse("if True:\n" + text if text[:1] in (" ", "\t") else text)
             except SyntaxError:
                 continue
-            ModuleCanon(name, btree, None, []).ifexp_to_if()
+            mc = ModuleCanon(name, btree, None, [])
+            mc.ifexp_to_if()
+            mc.lock_blocks()
             ast.fix_missing_locations(btree)
             base = btree.body[0].body[0] if text[:1] in (" ", "\t") else btree.body[0]
             if not isinstance(base, type(cur)):
